@@ -55,7 +55,7 @@ var verifTagKeywords = []string{"current", "link", "tags", "_manifests", "_layer
 // layout directory names, or minLen..maxLen symbolic bytes.
 func verifTag(minLen, maxLen int) string {
 	if verif.Choice("tag_kind", 2) == 0 {
-		return verifTagKeywords[verif.Choice("tag_keyword", verif.Bound("tag_keywords", 2, len(verifTagKeywords)))]
+		return verifTagKeywords[verif.Choice("tag_keyword", verif.Bound("tag_keywords", 2, 4))]
 	}
 	l := verif.Len("tag_len", minLen, maxLen)
 	b := verif.Bytes("tag", l)
@@ -79,7 +79,7 @@ var verifConcreteRoots = []string{"/", "/r.", "/r./", "/ab", "/ab/", "/a-/b_", "
 // regexp is concrete. The symbolic root grammar is covered by the …Roots
 // harnesses.
 func verifNameRoot() string {
-	return verifConcreteRoots[verif.Choice("root", verif.Bound("concrete_roots", 5, 6))]
+	return verifConcreteRoots[verif.Choice("root", verif.Bound("concrete_roots", 5, 5))]
 }
 
 func verifDockerTagCheck(root, repo, tag string) {
@@ -96,7 +96,7 @@ func verifDockerTagCheck(root, repo, tag string) {
 // VerifDockerTagRoundTrip: DockerTagPather, repo:tag names from the grammar.
 func VerifDockerTagRoundTrip() {
 	root := verifNameRoot()
-	repo := verifRepo(verif.Bound("repo_comps", 2, 3), verif.Bound("repo_comp_len", 1, 2))
+	repo := verifRepo(verif.Bound("repo_comps", 2, 3), verif.Bound("repo_comp_len", 1, 1))
 	tag := verifTag(verif.Bound("tag_min", 2, 1), verif.Bound("tag_max", 2, 3))
 	verifDockerTagCheck(root, repo, tag)
 }
